@@ -121,6 +121,20 @@ def run(ctx, rep):
     # ---- Z4 ------------------------------------------------------------------------------------
     has = any("<preflate_rs::preflate_error::PreflateError as std::convert::From<std::io::Error>>::from" in i["name"] for i in F.instances)
     rep.add("Z4", "From<io::Error>-for-PreflateError", has, "", "the io::Error -> PreflateError conversion used by `?` is instantiated")
+    # Z5: zstd's one-shot decoder answers input without any data frame (empty, or skippable frames only) with 0 bytes and no
+    # error; what rejects it is the container reader, whose first step reads the version byte *exactly*.  So in
+    # recreated_zlib_chunks every non-error result must lie behind the success edge of an exact read (read_u8 / read_exact).
+    rz = F.body(PC + "recreated_zlib_chunks")
+    exact = [(bb, t) for bb, t in rz.calls() if re.search(r"(ReadBytesExt::read_u8|Read::read_exact)$", strip_generics(callee_def(t)))]
+    okz = False
+    if exact:
+        prods = [pb for pb, _ in err.result_producers(rz, F)]
+        for bb, t in exact:
+            ti = err.try_info(rz, t["dest"]["l"])
+            if ti and prods and all(any(rz.edge_dominates(a, s2, pb) for a, s2 in ti["continue_edges"]) for pb in prods):
+                okz = True
+    rep.add("Z5", "empty-container-is-an-error", okz, "%s:%s" % (rz.file, rz.line),
+            "every Ok of recreated_zlib_chunks is behind an exact read of the version byte (%d exact reads found)" % len(exact))
     # "does not panic": every explicit failure construct mono-reachable from the two wrappers — including the error
     # conversions that `?` calls — must be a row of the reviewed table (same table and obligations as C01/A6, C05/X1)
     from . import site
